@@ -504,6 +504,7 @@ def check_batched(ctx, rep):
     from props import c10
     # (the event-axis analysis of sa/axes classifies no operation of site_model.py — there is no indexed height or keepdim-less reduction there — so it is not run)
     n_bad = c10.check_whole_reductions(ctx, RuleProxy(rep, 'C05.B', 'reductions::'), only=lambda mname: mname == MOD)
+    c10.check_front_axes(ctx, RuleProxy(rep, 'C05.B', 'axes::'), only=lambda mname: mname == MOD)
     m = ctx.prog.module(MOD)
     reds = [c for c in ast.walk(m.tree) if isinstance(c, ast.Call) and isinstance(c.func, ast.Attribute) and c.func.attr in ('sum', 'mean', 'prod', 'cumsum', 'logsumexp')]
     if len(reds) < 1:
